@@ -37,7 +37,7 @@ class Event:
 
 
 class State:
-    __slots__ = ('env', 'heap', 'conds', 'events', 'choices', 'loops', 'globals_decl')
+    __slots__ = ('env', 'heap', 'conds', 'events', 'choices', 'loops', 'globals_decl', 'jump')
 
     def __init__(self):
         self.env = {}
@@ -47,6 +47,7 @@ class State:
         self.choices = {}     # id(node) -> choice index (IfExp / inlined call forks)
         self.loops = []       # loop info dicts
         self.globals_decl = set()
+        self.jump = None      # 'continue' / 'break' until the enclosing loop consumes it
 
     def fork(self):
         s = State()
@@ -57,6 +58,7 @@ class State:
         s.choices = dict(self.choices)
         s.loops = list(self.loops)
         s.globals_decl = set(self.globals_decl)
+        s.jump = self.jump
         return s
 
 
